@@ -80,7 +80,7 @@ pub fn has_prev(a: &Rc<CfgNode>, b: &Rc<CfgNode>) -> bool {
 }
 
 pub fn is_rewritten_return(n: &CfgNode) -> bool {
-    matches!(n.node(), ParserNode::JumpLink(ref j) if j.name.get().as_str() == "__return__")
+    matches!(n.node(), ParserNode::JumpLink(ref j) if j.name.get().as_str() == "(return)")
 }
 
 pub fn node_desc(cfg: &Cfg, n: &Rc<CfgNode>) -> String {
